@@ -77,8 +77,37 @@ RenameState(m, n, new) == WithState(DropState(m, n), new, m.States[n])
 Fields == {"Type", "Next", "End", "Default", "Choices", "Branches", "ItemProcessor", "Resource", "Seconds", "Error"}
 Replacements == {Str("Nowhere"), Str("Bogus"), Num(5), Bool(TRUE)}
 
+(* rename state y of machine b to `new`, retargeting StartAt / Next / Default so that the   *)
+(* duplicate name is the only defect that can result                                       *)
+RenameRefs(b, y, new) ==
+    LET fix(st) == [g \in DOMAIN st |-> IF g \in {"Next", "Default"} /\ IsStr(st[g]) /\ st[g].s = y THEN Str(new) ELSE st[g]]
+        states == [x \in ((DOMAIN b.States) \ {y}) \cup {new} |-> IF x = new THEN fix(b.States[y]) ELSE fix(b.States[x])]
+    IN [StartAt |-> IF IsStr(b.StartAt) /\ b.StartAt.s = y THEN Str(new) ELSE b.StartAt, States |-> states]
+
+RECURSIVE NameSet(_)
+NameSet(m) == (DOMAIN m.States) \cup UNION {UNION {NameSet(sub) : sub \in SubMachines(m.States[n])} : n \in DOMAIN m.States}
+
+(* every variant of m in which ONE state, at any depth, takes a name from T that its own    *)
+(* States object does not hold: the same name then occurs in two different States objects   *)
+(* (parent and child, two sibling branches, cousins)                                        *)
+RECURSIVE RenameIn(_, _)
+RenameIn(m, T) ==
+    {RenameRefs(m, y, t) : y \in DOMAIN m.States, t \in T \ (DOMAIN m.States)}
+    \cup UNION {LET st == m.States[n] IN
+                  (IF Has(st, "Branches") /\ st["Branches"].k = "machines"
+                   THEN UNION {{WithState(m, n, SetField(st, "Branches", Machines([st["Branches"].ms EXCEPT ![i] = x]))) :
+                                    x \in RenameIn(st["Branches"].ms[i], T)} : i \in 1..Len(st["Branches"].ms)}
+                   ELSE {})
+                  \cup
+                  (IF Has(st, "ItemProcessor") /\ st["ItemProcessor"].k = "machine"
+                   THEN {WithState(m, n, SetField(st, "ItemProcessor", Machine1(x))) : x \in RenameIn(st["ItemProcessor"].m, T)}
+                   ELSE {})
+                : n \in DOMAIN m.States}
+NameCollisions(m) == RenameIn(m, NameSet(m))
+
 (* every definition one top-level mutation away from m *)
 Mutants(m) ==
+    NameCollisions(m) \cup
     {DropState(m, n) : n \in DOMAIN m.States}
     \cup {RenameState(m, n, "Renamed") : n \in DOMAIN m.States}
     \cup {[m EXCEPT !.StartAt = v] : v \in {Str("Nowhere"), Num(1)}}
